@@ -373,6 +373,21 @@ theorem objLitParts_rel {a b : Node} (h : HintRel a b) :
       cases k2 <;> try (simp [objLitParts]; done)
       exact .inr ⟨_, _, _, _, rfl, rfl, hl2⟩
 
+/-- the prop name of a plain attribute -/
+def attrNameStr (name : AttrName) : String :=
+  match name with
+  | .plain s => s
+  | .ns ns n => ns ++ ":" ++ n
+  | .bad => ""
+
+/-- the `_transformOn` helper identifier, created on first use -/
+def tonHelper (st : St) : Node × St :=
+  match st.transformOnHelper with
+  | some h => (h, st)
+  | none =>
+    let (h, st) := st.fresh "_transformOn"
+    (h, { st with transformOnHelper := some h })
+
 /-- the plain-attribute / directive arm of `attrStep` -/
 def attrCore (o : Opts) (isComponent : Bool) (nameN valueN : Node) (lowered : Option Node) (acc : AttrAcc) (st : St) : AttrAcc × St :=
   let name := attrNameOf nameN
@@ -389,21 +404,12 @@ def attrCore (o : Opts) (isComponent : Bool) (nameN valueN : Node) (lowered : Op
     | .vmodel arg targ mods v => (vmodelStep o isComponent arg targ mods v acc, st)
     | .slots e => ({ acc with slots := e }, st)
   else
-    let attrName :=
-      match name with
-      | .plain s => s
-      | .ns ns n => ns ++ ":" ++ n
-      | .bad => ""
+    let attrName := attrNameStr name
     let (attrValue, st) := attrValueExpr valueN lowered st
     let isTransformOn := o.transformOn && (attrName == "on" || attrName == "nativeOn")
     let acc := plainAttrFlags isComponent attrName valueN isTransformOn acc
     if isTransformOn then
-      let (helper, st) :=
-        match st.transformOnHelper with
-        | some h => (h, st)
-        | none =>
-          let (h, st) := st.fresh "_transformOn"
-          (h, { st with transformOnHelper := some h })
+      let (helper, st) := tonHelper st
       let acc :=
         if !acc.props.isEmpty then
           { acc with mergeArgs := acc.mergeArgs ++ [nObject (if o.mergeProps then dedupeProps acc.props else acc.props)],
@@ -495,5 +501,216 @@ theorem StSim.importFromVue {s1 s2 : St} (h : StSim s1 s2) (item : String) :
     cases t1; cases t2
     simp only [St.core, Prod.mk.injEq, StSim] at *
     simp_all
+
+theorem AccSim.flushMerge (o : Opts) {a1 a2 : AttrAcc} (h : AccSim a1 a2) :
+    AccSim { a1 with mergeArgs := a1.mergeArgs ++ [nObject (if o.mergeProps then dedupeProps a1.props else a1.props)], props := [] }
+           { a2 with mergeArgs := a2.mergeArgs ++ [nObject (if o.mergeProps then dedupeProps a2.props else a2.props)], props := [] } := by
+  obtain ⟨hf, hp, hm, hd, hs⟩ := h
+  refine ⟨hf, .nil, hm.snoc (rel_nObject ?_), hd, hs⟩
+  split
+  · exact dedupeProps_rel hp
+  · exact hp
+
+theorem AccSim.pushMerge {a1 a2 : AttrAcc} (h : AccSim a1 a2) {x y : Node} (hx : HintRel x y) :
+    AccSim { a1 with mergeArgs := a1.mergeArgs ++ [x] } { a2 with mergeArgs := a2.mergeArgs ++ [y] } := by
+  obtain ⟨hf, hp, hm, hd, hs⟩ := h
+  exact ⟨hf, hp, hm.snoc hx, hd, hs⟩
+
+theorem AccSim.appendProps {a1 a2 : AttrAcc} (h : AccSim a1 a2) {x y : List Node} (hx : HintRelL x y) :
+    AccSim { a1 with props := a1.props ++ x } { a2 with props := a2.props ++ y } := by
+  obtain ⟨hf, hp, hm, hd, hs⟩ := h
+  exact ⟨hf, hp.append hx, hm, hd, hs⟩
+
+theorem AccSim.propsIsEmpty {a1 a2 : AttrAcc} (h : AccSim a1 a2) : a1.props.isEmpty = a2.props.isEmpty := h.2.1.isEmpty
+
+theorem spreadCore_rel (o : Opts) {e1 e2 : Node} (he : HintRel e1 e2) {a1 a2 : AttrAcc} (h : AccSim a1 a2) {s1 s2 : St} (hs : StSim s1 s2) :
+    AccSim (spreadCore o e1 a1 s1).1 (spreadCore o e2 a2 s2).1 ∧ StSim (spreadCore o e1 a1 s1).2 (spreadCore o e2 a2 s2).2 := by
+  unfold spreadCore
+  have h0 := h.setDynKeys
+  have hflush : AccSim
+      (if (!({ a1 with hasDynamicKeys := true } : AttrAcc).props.isEmpty && o.mergeProps) = true then
+        { ({ a1 with hasDynamicKeys := true } : AttrAcc) with mergeArgs := ({ a1 with hasDynamicKeys := true } : AttrAcc).mergeArgs ++ [nObject (dedupeProps ({ a1 with hasDynamicKeys := true } : AttrAcc).props)], props := [] }
+       else { a1 with hasDynamicKeys := true })
+      (if (!({ a2 with hasDynamicKeys := true } : AttrAcc).props.isEmpty && o.mergeProps) = true then
+        { ({ a2 with hasDynamicKeys := true } : AttrAcc) with mergeArgs := ({ a2 with hasDynamicKeys := true } : AttrAcc).mergeArgs ++ [nObject (dedupeProps ({ a2 with hasDynamicKeys := true } : AttrAcc).props)], props := [] }
+       else { a2 with hasDynamicKeys := true }) := by
+    rw [h0.propsIsEmpty]
+    split
+    · obtain ⟨hf, hp, hm, hd, hsl⟩ := h0
+      exact ⟨hf, .nil, hm.snoc (rel_nObject (dedupeProps_rel hp)), hd, hsl⟩
+    · exact h0
+  simp only
+  generalize (if (!({ a1 with hasDynamicKeys := true } : AttrAcc).props.isEmpty && o.mergeProps) = true then _ else _) = b1 at hflush ⊢
+  generalize (if (!({ a2 with hasDynamicKeys := true } : AttrAcc).props.isEmpty && o.mergeProps) = true then _ else _) = b2 at hflush ⊢
+  rcases objLitParts_rel he with ⟨g1, g2⟩ | ⟨oas, las, p1, p2, g1, g2, hp⟩
+  · rw [g1, g2]
+    simp only
+    split
+    · exact ⟨hflush.pushMerge he, hs⟩
+    · exact ⟨hflush.pushProp (rel_nSpreadElement he), hs⟩
+  · rw [g1, g2]
+    simp only
+    split
+    · exact ⟨hflush.pushMerge (.node _ _ (.cons (.node _ _ hp) .nil)), hs⟩
+    · exact ⟨hflush.appendProps hp, hs⟩
+
+theorem tonHelper_rel {s1 s2 : St} (h : StSim s1 s2) : (tonHelper s1).1 = (tonHelper s2).1 ∧ StSim (tonHelper s1).2 (tonHelper s2).2 := by
+  unfold tonHelper
+  rw [h.fields.2.1]
+  split
+  · exact ⟨rfl, h⟩
+  · obtain ⟨h1, h2⟩ := h.fresh "_transformOn"
+    rcases e1 : s1.fresh "_transformOn" with ⟨id1, t1⟩
+    rcases e2 : s2.fresh "_transformOn" with ⟨id2, t2⟩
+    rw [e1, e2] at h1 h2
+    simp only at h1 h2 ⊢
+    subst h1
+    exact ⟨rfl, h2.setTon _⟩
+
+theorem attrCore_rel (o : Opts) (c : Bool) {n1 n2 : Node} (hn : HintRel n1 n2) {v1 v2 : Node} (hv : HintRel v1 v2)
+    {l1 l2 : Option Node} (hl : OptRel l1 l2) {a1 a2 : AttrAcc} (h : AccSim a1 a2) {s1 s2 : St} (hs : StSim s1 s2) :
+    AccSim (attrCore o c n1 v1 l1 a1 s1).1 (attrCore o c n2 v2 l2 a2 s2).1 ∧
+      StSim (attrCore o c n1 v1 l1 a1 s1).2 (attrCore o c n2 v2 l2 a2 s2).2 := by
+  unfold attrCore
+  rw [attrNameOf_rel hn]
+  dsimp only
+  split
+  · -- directive
+    obtain ⟨hd, hst⟩ := parseDirective_rel (attrNameOf n2) hv c hs
+    rcases e1 : parseDirective (attrNameOf n2) v1 c s1 with ⟨d1, t1⟩
+    rcases e2 : parseDirective (attrNameOf n2) v2 c s2 with ⟨d2, t2⟩
+    rw [e1, e2] at hd hst
+    simp only at hd hst ⊢
+    cases d1 <;> cases d2 <;> simp only [DirRel] at hd <;> try exact hd.elim
+    · -- normal
+      obtain ⟨hname, harg, hmods, hval⟩ := hd
+      subst hname hmods
+      exact ⟨h.pushDir ⟨rfl, harg, OptRel.refl _, hval⟩, hst⟩
+    · -- text
+      exact ⟨(h.pushProp (rel_nKV (HintRel.refl _) hd)).addDyn _, hst⟩
+    · -- html
+      exact ⟨(h.pushProp (rel_nKV (HintRel.refl _) hd)).addDyn _, hst⟩
+    · -- vmodel
+      obtain ⟨harg, htr, hmods, hval⟩ := hd
+      subst hmods
+      refine ⟨?_, hst⟩
+      dsimp only [vmodelStep]
+      obtain ⟨k1, k2, k3⟩ := vmodelArgKind_rel harg
+      rename_i arg1 targ1 m1 val1 arg2 targ2 val2
+      rcases ea1 : vmodelArgKind arg1 with ⟨tg1, sx1, ex1⟩
+      rcases ea2 : vmodelArgKind arg2 with ⟨tg2, sx2, ex2⟩
+      rw [ea1, ea2] at k1 k2 k3
+      obtain ⟨rfl, rfl⟩ : tg1 = tg2 ∧ sx1 = sx2 := ⟨k1, k2⟩
+      exact vmodelStepK_rel c _ _ k3 htr _ hval h
+    · -- slots
+      exact ⟨h.setSlots hd, hst⟩
+  · -- plain attribute
+    obtain ⟨hav, hst⟩ := attrValueExpr_rel hv hl hs
+    rcases e1 : attrValueExpr v1 l1 s1 with ⟨x1, t1⟩
+    rcases e2 : attrValueExpr v2 l2 s2 with ⟨x2, t2⟩
+    rw [e1, e2] at hav hst
+    dsimp only at hav hst ⊢
+    generalize attrNameStr (attrNameOf n2) = nm
+    generalize (o.transformOn && (nm == "on" || nm == "nativeOn")) = ton
+    have hfl := plainAttrFlags_rel c nm hv ton h
+    cases ton
+    · simpa using ⟨hfl.pushProp (rel_nKV (HintRel.refl _) hav), hst⟩
+    · simp only [if_true]
+      obtain ⟨hh, hst2⟩ := tonHelper_rel hst
+      rcases f1 : tonHelper t1 with ⟨hp1, u1⟩
+      rcases f2 : tonHelper t2 with ⟨hp2, u2⟩
+      rw [f1, f2] at hh hst2
+      simp only at hh hst2 ⊢
+      subst hh
+      refine ⟨?_, hst2⟩
+      rw [hfl.propsIsEmpty]
+      split
+      · exact (hfl.flushMerge o).pushMerge (rel_nCall _ (.cons (rel_nArg hav) .nil))
+      · exact hfl.pushMerge (rel_nCall _ (.cons (rel_nArg hav) .nil))
+
+theorem attrStep_rel (o : Opts) (c : Bool) {x1 x2 : Node} (hx : HintRel x1 x2) {l1 l2 : Option Node} (hl : OptRel l1 l2)
+    {a1 a2 : AttrAcc} (h : AccSim a1 a2) {s1 s2 : St} (hs : StSim s1 s2) :
+    AccSim (attrStep o c x1 l1 a1 s1).1 (attrStep o c x2 l2 a2 s2).1 ∧ StSim (attrStep o c x1 l1 a1 s1).2 (attrStep o c x2 l2 a2 s2).2 := by
+  rw [attrStep_eq, attrStep_eq]
+  rcases attrParts_rel hx with ⟨h1, h2⟩ | ⟨n1, n2, v1, v2, h1, h2, hn, hv⟩
+  · rw [h1, h2]
+    rcases (spreadPart_rel hx).elim with ⟨g1, g2⟩ | ⟨e1, e2, g1, g2, he⟩
+    · rw [g1, g2]; exact ⟨h, hs.panic _⟩
+    · rw [g1, g2]; exact spreadCore_rel o he h hs
+  · rw [h1, h2]; exact attrCore_rel o c hn hv hl h hs
+
+/-! ### the props expression and the patch flag -/
+
+theorem patchFlagsOf_rel {a1 a2 : AttrAcc} (h : AccSim a1 a2) : patchFlagsOf a1 = patchFlagsOf a2 := by
+  obtain ⟨hf, hp, hm, hd, hs⟩ := h
+  have hde := hd.isEmpty
+  cases a1; cases a2
+  simp only [AttrAcc.flags, Prod.mk.injEq] at hf
+  obtain ⟨h1, h2, h3, h4, h5, h6⟩ := hf
+  simp only at hde
+  subst h1 h2 h3 h4 h5 h6
+  simp only [patchFlagsOf, hde]
+
+theorem spreadOnly_rel {p1 p2 : List Node} (h : HintRelL p1 p2) :
+    ((match p1 with | [.mk .spreadElement _ [e]] => some e | _ => none) = none ∧ (match p2 with | [.mk .spreadElement _ [e]] => some e | _ => (none : Option Node)) = none) ∨
+    ∃ e1 e2 as, p1 = [.mk .spreadElement as [e1]] ∧ p2 = [.mk .spreadElement as [e2]] ∧ HintRel e1 e2 := by
+  rcases h with _ | ⟨hx, _ | ⟨hy, hr⟩⟩
+  · simp
+  · cases hx with
+    | vnode => simp
+    | node k as hl =>
+      cases k <;> try (simp; done)
+      rcases hl with _ | ⟨h1, _ | ⟨h2, hl⟩⟩ <;> try (simp; done)
+      exact .inr ⟨_, _, _, rfl, rfl, h1⟩
+  · simp
+
+theorem assembleProps_rel (o : Opts) {p1 p2 m1 m2 : List Node} (hp : HintRelL p1 p2) (hm : HintRelL m1 m2) {s1 s2 : St} (hs : StSim s1 s2) :
+    HintRel (assembleProps o p1 m1 s1).1 (assembleProps o p2 m2 s2).1 ∧ StSim (assembleProps o p1 m1 s1).2 (assembleProps o p2 m2 s2).2 := by
+  unfold assembleProps
+  rw [hm.isEmpty, hp.isEmpty]
+  have hobj : HintRel (nObject (if o.mergeProps then dedupeProps p1 else p1)) (nObject (if o.mergeProps then dedupeProps p2 else p2)) := by
+    apply rel_nObject
+    split
+    · exact dedupeProps_rel hp
+    · exact hp
+  split
+  · -- merge arguments present
+    have hm' : HintRelL (if (!p2.isEmpty) = true then m1 ++ [nObject (if o.mergeProps then dedupeProps p1 else p1)] else m1)
+                        (if (!p2.isEmpty) = true then m2 ++ [nObject (if o.mergeProps then dedupeProps p2 else p2)] else m2) := by
+      split
+      · exact hm.snoc hobj
+      · exact hm
+    dsimp only
+    generalize (if (!p2.isEmpty) = true then m1 ++ [nObject (if o.mergeProps then dedupeProps p1 else p1)] else m1) = q1 at hm' ⊢
+    generalize (if (!p2.isEmpty) = true then m2 ++ [nObject (if o.mergeProps then dedupeProps p2 else p2)] else m2) = q2 at hm' ⊢
+    rcases hm' with _ | ⟨hx, _ | ⟨hy, hr⟩⟩
+    · obtain ⟨i1, i2⟩ := hs.importFromVue "mergeProps"
+      rcases f1 : s1.importFromVue "mergeProps" with ⟨mp1, u1⟩
+      rcases f2 : s2.importFromVue "mergeProps" with ⟨mp2, u2⟩
+      rw [f1, f2] at i1 i2
+      dsimp only at i1 i2 ⊢
+      subst i1
+      exact ⟨rel_nCall _ .nil, i2⟩
+    · exact ⟨hx, hs⟩
+    · obtain ⟨i1, i2⟩ := hs.importFromVue "mergeProps"
+      rcases f1 : s1.importFromVue "mergeProps" with ⟨mp1, u1⟩
+      rcases f2 : s2.importFromVue "mergeProps" with ⟨mp2, u2⟩
+      rw [f1, f2] at i1 i2
+      dsimp only at i1 i2 ⊢
+      subst i1
+      exact ⟨rel_nCall _ (HintRelL.mapArg (.cons hx (.cons hy hr))), i2⟩
+  · split
+    · rcases hp with _ | ⟨hx, _ | ⟨hy, hr⟩⟩
+      · exact ⟨hobj, hs⟩
+      · cases hx with
+        | vnode => exact ⟨hobj, hs⟩
+        | node k as hl =>
+          cases k <;> try (exact ⟨hobj, hs⟩)
+          rcases hl with _ | ⟨h1, _ | ⟨h2, hl⟩⟩
+          · exact ⟨hobj, hs⟩
+          · exact ⟨h1, hs⟩
+          · exact ⟨hobj, hs⟩
+      · simp only; exact ⟨hobj, hs⟩
+    · exact ⟨HintRel.refl _, hs⟩
 
 end VueJsx
